@@ -103,6 +103,33 @@ def _bridge(N, clmo, enc):
     return {"_polynomial_poisson_bracket": bracket, "_polynomial_clean": clean}
 
 
+def _a_sparse_input(chk, N, freq):
+    """An input whose degree-4 block is empty: the degree-4 terms created by exp(L_G3) still have to be normalised
+    (a guard that looks at the *input* block instead of the current transformed one would skip them)."""
+    psi, clmo, enc = pr.tables(N)
+    H, coeffs = _generic_H(N, freq)
+    Hs = sp.expand(sum((t for t in sp.Add.make_args(H) if sp.Poly(t, *X).total_degree() != 4), sp.Integer(0)))
+    rep = _rep(coeffs)
+    H_list = expr_to_list(Hs, N, clmo, enc)
+    point = SymObj(None, {"linear_modes": freq}, "point")
+    for kind, modname in (("partial", CL), ("full", NL)):
+        ip = Interp(overrides=_bridge(N, clmo, enc), decide=RegionDecider(rep), max_depth=40)
+        out = ip.call_function(modname, "_lie_transform", [point, [a.copy() for a in H_list], psi, clmo, N])
+        chk.count("functions partially evaluated")
+        Hn = P(pr.list_to_expr(out[0], clmo))
+        bad = []
+        deg4 = 0
+        for m, cf in Hn.as_dict().items():
+            if sum(m[:6]) < 3:
+                continue
+            deg4 += sum(m[:6]) == 4
+            if (m[0] != m[3]) if kind == "partial" else ((m[0], m[1], m[2]) != (m[3], m[4], m[5])):
+                bad.append(m[:6])
+        chk.check(not bad, "C08.a", f"{modname}::_lie_transform[{kind}:remaining terms, empty input degree]",
+                  f"{kind} normal form of a Hamiltonian without degree-4 terms still contains {sorted(set(bad))[:5]}: terms created by earlier generators in an initially empty "
+                  "degree are not normalised", sample=f"{kind}: H3 + H2 only; the degree-4 terms created by exp(L_G3) ({deg4} monomials remain, all admissible)")
+
+
 def _generic_H(N, freq):
     """H2 in complex normal form + sparse generic terms of degree 3..N (both kinds: to eliminate and to keep)."""
     q1, q2, q3, p1, p2, p3 = X
@@ -160,6 +187,7 @@ def run(tier):
     for fi, freq in enumerate(FREQS if tier != "quick" else FREQS[:1]):
         _one_frequency(chk, N, freq, fi)
     _d_truncation_counts(chk)
+    _a_sparse_input(chk, 4, FREQS[0])
     _b_series_weights(chk)
     # the generating functions handed out for a transform are the ones that transform produced (C18.b slot rule, re-filed)
     from . import c18
